@@ -1,10 +1,14 @@
 ----------------------- MODULE ReplicationSearchJudge -----------------------
 (* Judge for C19.  Every recorded line is                                      *)
 (*   [case |-> [kind, skew, style, prefix, unit, pauses, pauselen (the time     *)
-(*              assignment), present (tuple), first, cur, q],                   *)
+(*              assignment), present (tuple), first, cur, q, op,                *)
+(*              sid, k (the k-th call of client history sid)],                  *)
 (*    got  |-> [outcome ("ok" | "error" | "hang"), seq, state_seq, sec, nsec,  *)
 (*              count, reqs (tuple of [path, status, n]), ...]]                 *)
-(* produced by harness/cmd/c19 from the real Datasource.XxxStateAt.            *)
+(* produced by harness/cmd/c19 from the real Datasource.XxxStateAt /           *)
+(* CurrentXxxState; the calls of one history (one directory record) were made  *)
+(* in order k = 1, 2, ... in one fresh process against one server and are      *)
+(* consecutive lines.                                                          *)
 EXTENDS ReplicationSearch, IOUtils, Json
 Lines == ndJsonDeserialize(IOEnv.REC)
 
@@ -25,19 +29,28 @@ J_Result(ln)       == Returned(ln, Want(CaseOfLine(ln)))
 J_RequestBound(ln) == ln.got.count <= RequestBound(CaseOfLine(ln))
 J_URLs(ln)         == \A i \in 1 .. Len(ln.got.reqs) :
                         WellFormedURL(RenderOfLine(ln), ln.got.reqs[i].path, ln.got.reqs[i].n)
-Failed(ln) == {j \in {"Terminates", "Result", "RequestBound", "URLs"} :
-                 CASE j = "Terminates"   -> ~J_Terminates(ln)
-                   [] j = "Result"       -> ~J_Result(ln)
-                   [] j = "RequestBound" -> ~J_RequestBound(ln)
-                   [] j = "URLs"         -> ~J_URLs(ln)}
-LineOK(ln) == WellFormedDir(DirOfLine(ln)) /\ Failed(ln) = {}
+\* "for any replication directory ... looking up the state for a timestamp ... returns the first available state":
+\* the answer is a function of the directory and the time, not of the calls made before.  Line i must give the
+\* answer every earlier call of the same history with the same abstract time gave (the k-1 preceding lines).
+Answer(ln) == <<ln.got.outcome, ln.got.seq, ln.got.state_seq, ln.got.sec, ln.got.nsec>>
+J_HistoryIndependent(i) == LET ln == Lines[i]   lo == IF i - ln.case.k + 1 < 1 THEN 1 ELSE i - ln.case.k + 1 IN
+  \A j \in lo .. (i - 1) :
+     (Lines[j].case.sid = ln.case.sid /\ Lines[j].case.q = ln.case.q) => Answer(Lines[j]) = Answer(ln)
+FailedAt(i) == LET ln == Lines[i] IN
+  {j \in {"Terminates", "Result", "RequestBound", "URLs", "HistoryIndependent"} :
+     CASE j = "Terminates"         -> ~J_Terminates(ln)
+       [] j = "Result"             -> ~J_Result(ln)
+       [] j = "RequestBound"       -> ~J_RequestBound(ln)
+       [] j = "URLs"               -> ~J_URLs(ln)
+       [] j = "HistoryIndependent" -> ~J_HistoryIndependent(i)}
+LineOK(i) == WellFormedDir(DirOfLine(Lines[i])) /\ FailedAt(i) = {}
 
 \* --- known findings: the signature holds on the case AND what was observed is what the model with that
 \*     deviation does (so any other failure on the same input is still a violation).  A failure that the model
 \*     without deviations shows as well is the findBound gap and nothing else. ---
 Explains(ln, D) == LET o == Outcome([CaseOfLine(ln) EXCEPT !.dev = D]) IN
   IF ln.got.outcome = "hang" THEN o = -1 ELSE o >= 1 /\ Returned(ln, o)
-KnownFindings(ln) == LET c == CaseOfLine(ln)   f == Failed(ln) IN
+KnownFindings(i) == LET ln == Lines[i]   c == CaseOfLine(ln)   f == FailedAt(i) IN
   {k \in {"KF_FindBoundGap", "KF_ProbeLoop", "KF_Boundary"} :
      CASE k = "KF_FindBoundGap" -> f = {"Result"} /\ KF_FindBoundGap(c) /\ Explains(ln, NoDevs)
        [] k = "KF_ProbeLoop"    -> "URLs" \notin f /\ ln.got.outcome = "hang" /\ KF_ProbeLoop(c) /\ ~Explains(ln, NoDevs)
@@ -45,11 +58,12 @@ KnownFindings(ln) == LET c == CaseOfLine(ln)   f == Failed(ln) IN
        [] k = "KF_Boundary"     -> f = {"Result"} /\ KF_Boundary(c) /\ ~Explains(ln, NoDevs)
                                      /\ \E D \in FixPatches : D \cap BoundaryDevs # {} /\ Explains(ln, D)}
 
-Why(ln) == IF ~WellFormedDir(DirOfLine(ln)) THEN [failed |-> {"malformed-case"}, want |-> 0]
-           ELSE [failed |-> Failed(ln), want |-> Want(CaseOfLine(ln)), bound |-> RequestBound(CaseOfLine(ln))]
+Why(i) == LET ln == Lines[i] IN
+  IF ~WellFormedDir(DirOfLine(ln)) THEN [failed |-> {"malformed-case"}, want |-> 0]
+  ELSE [failed |-> FailedAt(i), want |-> Want(CaseOfLine(ln)), bound |-> RequestBound(CaseOfLine(ln)), call |-> ln.case.k]
 ASSUME \A i \in 1 .. Len(Lines) :
-          LineOK(Lines[i]) \/ PrintT(<<"BAD", ToJson([i |-> i, why |-> Why(Lines[i]),
-                                               kf |-> IF WellFormedDir(DirOfLine(Lines[i])) THEN KnownFindings(Lines[i]) ELSE {}])>>)
+          LineOK(i) \/ PrintT(<<"BAD", ToJson([i |-> i, why |-> Why(i),
+                                        kf |-> IF WellFormedDir(DirOfLine(Lines[i])) THEN KnownFindings(i) ELSE {}])>>)
 ASSUME PrintT(<<"JUDGED", Len(Lines)>>)
 JInit == cs = 0 /\ st = 0
 JNext == UNCHANGED vars
